@@ -400,7 +400,9 @@ func one(c *eng.Ctx, t int, rng *rand.Rand, mode, dir string) bool {
 		}
 	}
 	// wind down: stop the scheduler; every Download call must have returned by then
-	for vs.Deferred() > 0 { // notices still in flight are delivered before the scheduler stops
+	// in half of the schedules the notices still in flight are delivered before the scheduler stops; in the
+	// other half the scheduler is stopped while a completion notice is still parked (shutdown must answer the waiters)
+	for rng.Intn(2) == 0 && vs.Deferred() > 0 {
 		vs.Flush()
 		ev("ApplyNotice", "n", 1)
 	}
